@@ -26,7 +26,7 @@ def mismatch (m s : String) : String := s!"MODEL-SPEC-MISMATCH model={m} spec={s
 
 def searchOps : List String :=
   ["pq", "pqraw", "tmeta", "rle", "ipc", "ipcraw", "ocf", "ocfraw", "csv", "csvraw", "json", "jsonraw",
-   "variant", "variantraw", "ipcz", "ipczraw", "flight", "avrodec", "dict"]
+   "variant", "variantraw", "ipcz", "ipczraw", "flight", "avrodec", "dict", "jsongrid", "jsonty", "pqsplit"]
 
 /-- Avro `read_varint` + zig-zag; model and ULEB128-u64 specification must agree on every input -/
 def avlqAnswer (h : String) : String :=
